@@ -1305,6 +1305,10 @@ class VM:
                 idx = max(0, length + idx)
             return int(min(idx, length))
 
+        def require_callable(fn, what):
+            if not (isinstance(fn, JSFunction) or callable(fn)):
+                raise JSTypeError(f"{what} is not a function")
+
         def push_fn(*args):
             for arg in args:
                 arr.push(arg)
@@ -1339,8 +1343,7 @@ class VM:
         def map_fn(*args):
             callback = args[0] if args else None
             this_arg = args[1] if len(args) > 1 else UNDEFINED
-            if not callback:
-                return JSArray()
+            require_callable(callback, "map callback")
             result = JSArray()
             result._elements = []
             for i, elem in enumerate(arr._elements):
@@ -1351,8 +1354,7 @@ class VM:
         def filter_fn(*args):
             callback = args[0] if args else None
             this_arg = args[1] if len(args) > 1 else UNDEFINED
-            if not callback:
-                return JSArray()
+            require_callable(callback, "filter callback")
             result = JSArray()
             result._elements = []
             for i, elem in enumerate(arr._elements):
@@ -1364,8 +1366,7 @@ class VM:
         def reduce_fn(*args):
             callback = args[0] if args else None
             initial = args[1] if len(args) > 1 else UNDEFINED
-            if not callback:
-                raise JSTypeError("reduce callback is not a function")
+            require_callable(callback, "reduce callback")
             acc = initial
             start_idx = 0
             if acc is UNDEFINED:
@@ -1381,8 +1382,7 @@ class VM:
         def reduceRight_fn(*args):
             callback = args[0] if args else None
             initial = args[1] if len(args) > 1 else UNDEFINED
-            if not callback:
-                raise JSTypeError("reduceRight callback is not a function")
+            require_callable(callback, "reduceRight callback")
             acc = initial
             length = len(arr._elements)
             start_idx = length - 1
@@ -1423,8 +1423,7 @@ class VM:
         def forEach_fn(*args):
             callback = args[0] if args else None
             this_arg = args[1] if len(args) > 1 else UNDEFINED
-            if not callback:
-                return UNDEFINED
+            require_callable(callback, "forEach callback")
             for i, elem in enumerate(arr._elements):
                 vm._call_callback(callback, [elem, i, arr], this_arg)
             return UNDEFINED
@@ -1452,8 +1451,7 @@ class VM:
         def find_fn(*args):
             callback = args[0] if args else None
             this_arg = args[1] if len(args) > 1 else UNDEFINED
-            if not callback:
-                return UNDEFINED
+            require_callable(callback, "find callback")
             for i, elem in enumerate(arr._elements):
                 val = vm._call_callback(callback, [elem, i, arr], this_arg)
                 if to_boolean(val):
@@ -1463,8 +1461,7 @@ class VM:
         def findIndex_fn(*args):
             callback = args[0] if args else None
             this_arg = args[1] if len(args) > 1 else UNDEFINED
-            if not callback:
-                return -1
+            require_callable(callback, "findIndex callback")
             for i, elem in enumerate(arr._elements):
                 val = vm._call_callback(callback, [elem, i, arr], this_arg)
                 if to_boolean(val):
@@ -1474,8 +1471,7 @@ class VM:
         def some_fn(*args):
             callback = args[0] if args else None
             this_arg = args[1] if len(args) > 1 else UNDEFINED
-            if not callback:
-                return False
+            require_callable(callback, "some callback")
             for i, elem in enumerate(arr._elements):
                 val = vm._call_callback(callback, [elem, i, arr], this_arg)
                 if to_boolean(val):
@@ -1485,8 +1481,7 @@ class VM:
         def every_fn(*args):
             callback = args[0] if args else None
             this_arg = args[1] if len(args) > 1 else UNDEFINED
-            if not callback:
-                return True
+            require_callable(callback, "every callback")
             for i, elem in enumerate(arr._elements):
                 val = vm._call_callback(callback, [elem, i, arr], this_arg)
                 if not to_boolean(val):
@@ -1529,7 +1524,9 @@ class VM:
             return False
 
         def sort_fn(*args):
-            comparator = args[0] if args else None
+            comparator = args[0] if args else UNDEFINED
+            if comparator is not UNDEFINED:
+                require_callable(comparator, "sort comparator")
 
             # Default string comparison
             def default_compare(a, b):
@@ -1551,9 +1548,7 @@ class VM:
                 if b is UNDEFINED:
                     return -1
                 # Use comparator if provided
-                if comparator and (
-                    callable(comparator) or isinstance(comparator, JSFunction)
-                ):
+                if comparator is not UNDEFINED:
                     result = vm._call_callback(comparator, [a, b])
                     # Convert to integer for cmp_to_key
                     num = to_number(result) if result is not UNDEFINED else 0
